@@ -165,6 +165,39 @@ func (w *world) store(t fataler, m *msg, via string) {
 		if r := w.s.Do("NOOP"); !r.OK() {
 			t.Fatalf("NOOP: %v", r)
 		}
+	case "connector-update":
+		// the connector first announces a short message and then replaces its content (MessageUpdated with a new
+		// literal: a draft that was edited remotely); what is fetched afterwards is the new content
+		old := []byte("From: a@example.com\r\nTo: b@example.com\r\nSubject: first version\r\nDate: Mon, 7 Feb 1994 21:52:25 -0800\r\n\r\nfirst version\r\n")
+
+		rm, mc, err := w.u.Conn.NewRemoteMessage(old, imap.NewFlagSet(), time.Unix(1600000000, 0), w.u.Inbox.ID)
+		if err != nil {
+			t.Fatalf("harness: %v", err)
+		}
+
+		if d := w.b.DeliverNow(w.u, imap.NewMessagesCreated(false, mc)); d[0].Err != nil {
+			t.Fatalf("MessagesCreated refused: %v", d[0].Err)
+		}
+
+		parsed, err := imap.NewParsedMessage(m.A)
+		if err != nil {
+			t.Fatalf("generator soundness: imap.NewParsedMessage refuses a generated message: %v\n%s", err, m.describe())
+		}
+
+		w.u.Conn.Lock(func() { w.u.Conn.Messages[rm.ID].Literal = append([]byte(nil), m.A...) })
+
+		up := imap.NewMessageUpdated(imap.Message{ID: rm.ID, Flags: imap.NewFlagSet(), Date: time.Unix(1600000000, 0)}, m.A, []imap.MailboxID{w.u.Inbox.ID}, parsed, false)
+		if d := w.b.DeliverNow(w.u, up); d[0].Err != nil {
+			t.Fatalf("MessageUpdated refused: %v\n%s", d[0].Err, m.describe())
+		}
+
+		if err := w.b.Barrier(w.u); err != nil {
+			t.Fatalf("VERIF-INCONCLUSIVE: barrier: %v", err)
+		}
+
+		if r := w.s.Do("NOOP"); !r.OK() {
+			t.Fatalf("NOOP: %v", r)
+		}
 	}
 
 	m.seq = uint32(len(w.s.Mirror.Msgs))
